@@ -312,7 +312,7 @@ func runC04(c *Ctx) {
 			// R04.4: guarded by the non-nil test of the same query field
 			if strings.HasPrefix(got, "tuple.") && wf.Fn.Name.Name == "whereQuery" {
 				f := strings.TrimPrefix(got, "tuple.")
-				guarded := strings.Contains(wf.Case, f+" != nil")
+				guarded := wf.NonNil[f]
 				queryFieldGuard[f] = guarded
 				if !guarded {
 					bad = append(bad, fmt.Sprintf("the predicate on %s is not guarded by %s != nil: a query without that field compares with NULL", col, f))
@@ -381,11 +381,19 @@ func runC04(c *Ctx) {
 			if !ok {
 				return true
 			}
-			cond := types.ExprString(ifs.Cond)
-			if !strings.Contains(cond, "!= nil") {
+			op, _, y, isCmp := cmpParts(info, ifs.Cond)
+			if !isCmp || !isNilExpr(info, y) || (op != token.NEQ && op != token.EQL) {
 				return true
 			}
-			ast.Inspect(ifs.Body, func(n2 ast.Node) bool {
+			// the branch on which the subject is not nil
+			var side ast.Node = ifs.Body
+			if op == token.EQL {
+				side = ifs.Else
+			}
+			if side == nil {
+				return true
+			}
+			ast.Inspect(side, func(n2 ast.Node) bool {
 				if c2, ok := n2.(*ast.CallExpr); ok {
 					if sel, ok := c2.Fun.(*ast.SelectorExpr); ok && sel.Sel.Name == "whereSubject" {
 						subjOK = true
